@@ -87,8 +87,20 @@ def display_amounts(rng, b, n):
 
 def random_spec(rng):
     sp = {}
-    k = rng.choice(["default", "prec", "width", "both", "both", "flags", "full", "full"])
+    k = rng.choice(["default", "prec", "width", "both", "both", "flags", "full", "full", "flags_no_width"])
     if k == "default":
+        return sp
+    if k == "flags_no_width":
+        # valid Rust: `{:0}`, `{:+0.2}`, `{:<0}`, `{:*^+}` - flags, fill and alignment without any width
+        if rng.random() < 0.5:
+            sp["prec"] = rng.choice([0, 1, 2, 6])
+        if rng.random() < 0.4:
+            sp["plus"] = True
+        if rng.random() < 0.7:
+            sp["zero"] = True
+        if rng.random() < 0.4:
+            sp["align"] = rng.randint(1, 3)
+            sp["fill"] = rng.randint(0, 5)
         return sp
     if k in ("prec", "both", "full"):
         sp["prec"] = rng.choice([0, 1, 2, 3, 6, 10, 17, 18, rng.randint(0, 20)])
